@@ -156,6 +156,25 @@ func (k *K) appSendRule(id string, app appDesc) {
 		k.r.Undecided(id+"/"+app.send+".flag", "BIND", fn, k.w.Pos(fi.Fn.Pos()), "cannot find the AwayFromOrigin field of the packet data passed to SendPacket")
 		return
 	}
+	// the direction is decided for the packet's own destination and the class put into the packet
+	if away.Op == "call" && strings.HasSuffix(away.Name, ".determineAwayFromOrigin") && len(away.Args) == 3 {
+		var pktDest, pktClass string
+		for _, s := range sends {
+			p := fi.T.Of(CallArgs(&s.Call)[1])
+			p.Walk(func(x *Term) {
+				if x.Op == "kv" && x.Name == "DestinationChain" && pktDest == "" {
+					pktDest = x.Args[0].String()
+				}
+				if x.Op == "kv" && x.Name == "Class" && pktClass == "" {
+					pktClass = x.Args[0].String()
+				}
+			})
+		}
+		k.r.Check(away.Args[2].String() == pktDest, id+"/"+app.send+".direction.dest", "BIND", fn, k.w.Pos(fi.Fn.Pos()), "away/back is decided against the packet's destination chain", "the away-from-origin decision is taken against "+clip(away.Args[2].String())+" but the packet is addressed to "+clip(pktDest)+" (e.g. the relay chain instead of the destination): sender and receiver can disagree on the direction")
+		k.r.Check(away.Args[1].String() == pktClass, id+"/"+app.send+".direction.class", "BIND", fn, k.w.Pos(fi.Fn.Pos()), "away/back is decided on the class path written into the packet", "the away-from-origin decision is taken on "+clip(away.Args[1].String())+" but the packet carries class "+clip(pktClass))
+	} else {
+		k.r.Undecided(id+"/"+app.send+".direction", "BIND", fn, k.w.Pos(fi.Fn.Pos()), "the AwayFromOrigin flag is not the result of determineAwayFromOrigin(class, dest): "+clip(away.String()))
+	}
 	for _, c := range locks {
 		k.r.Check(fi.HasAtom(c.Block(), away.String()), id+"/"+app.send+".flag.lock", "GUARD-DOM", fn, fi.InstrPos(c),
 			"escrow lock happens exactly when the packet says AwayFromOrigin=true", "escrow lock is not guarded by the same boolean that is written into the packet's AwayFromOrigin ("+clip(away.String())+")")
